@@ -248,6 +248,28 @@ def load_known_findings():
         return json.load(f)
 
 
+def to_jsonable(o):
+    """Tuple keys -> "(a, b)" strings, tuples/sets -> lists."""
+    if isinstance(o, dict):
+        return {(repr(k) if isinstance(k, tuple) else k): to_jsonable(v)
+                for k, v in o.items()}
+    if isinstance(o, (list, tuple, set, frozenset)):
+        return [to_jsonable(v) for v in o]
+    return o
+
+
+def from_jsonable(o):
+    """Inverse for dict keys written by to_jsonable."""
+    import ast
+    if isinstance(o, dict):
+        return {(ast.literal_eval(k) if isinstance(k, str) and
+                 k.startswith("(") and k.endswith(")") else k):
+                from_jsonable(v) for k, v in o.items()}
+    if isinstance(o, list):
+        return [from_jsonable(v) for v in o]
+    return o
+
+
 class Report:
     """Collects violations, known findings and coverage; writes evidence."""
 
@@ -300,8 +322,8 @@ class Report:
             path = os.path.join(REPLAYS, f"{self.pid}-{seed()}-{n}.json")
             with open(path, "w") as f:
                 json.dump({"property": self.pid, "key": key, "text": text,
-                           "seed": seed(), "case": replay_obj}, f, indent=1,
-                          default=str)
+                           "seed": seed(), "case": to_jsonable(replay_obj)},
+                          f, indent=1, default=str)
         self.violations.append((key, text, path))
         return True
 
